@@ -386,11 +386,17 @@ func (w *worker[T, JobType]) goRemoveIdleWorkers() {
 			}
 
 			nodes := w.pool.NodeSlice()
+			// the pool may have shrunk since the length check above
+			if len(nodes) <= targetIdleWorkers {
+				continue
+			}
+
 			// If we have more nodes than our target, close the excess ones
 			for _, node := range nodes[targetIdleWorkers:] {
-				if node.Value.GetLastUsed().Add(interval).Before(time.Now()) &&
-					!(node.Next() == nil && node.Prev() == nil) { // if both nil, it means the node is not in the list and not idle
-					w.pool.Remove(node)
+				// Remove reports whether the node was still in the idle list: only then
+				// do we own it. A node popped by the dispatcher in the meantime is busy
+				// and must not be stopped.
+				if node.Value.GetLastUsed().Add(interval).Before(time.Now()) && w.pool.Remove(node) {
 					node.Value.Stop()
 					w.pool.Cache.Put(node)
 				}
